@@ -605,13 +605,25 @@ def rule_r1(ctx):
 # H1
 
 
+REP_METHODS = {"hyperboloid_coords", "projective_coords"}
+REP_FUNCS = {"hyperboloid_coords", "utils.normalize", "normalize"}
+
+
 def _raw_rep_owner(e):
-    """If e is the raw homogeneous representative of an object (x.proj_data
-    or a slice of it), return the owner's source text."""
+    """If e is a homogeneous representative of an object -- x.proj_data, a
+    slice of it, x.hyperboloid_coords() / x.projective_coords() (normalised,
+    but still carrying the sign of the stored representative), or a
+    normalisation of one of those -- return the owner's source text."""
     while isinstance(e, ast.Subscript):
         e = e.value
     if isinstance(e, ast.Attribute) and e.attr == "proj_data":
         return dotted(e.value)
+    if isinstance(e, ast.Call):
+        if isinstance(e.func, ast.Attribute) and e.func.attr in REP_METHODS \
+                and not e.args and isinstance(e.func.value, ast.Name):
+            return dotted(e.func.value)
+        if dotted(e.func) in REP_FUNCS and e.args:
+            return _raw_rep_owner(e.args[0])
     return None
 
 
@@ -776,3 +788,171 @@ def rule_row_convention(ctx, min_sites=3):
                         instance=inst)
     r.require_count("RC", "Isometry(find_isometry(..)) sites", n_sites,
                     min_sites)
+
+
+# ---------------------------------------------------------------------------
+# H2 / G2 / ODD1: parity of the functions a sign-carrying quantity passes
+
+
+EVEN_FUNCS = {"np.abs", "abs", "np.absolute", "np.fabs", "np.square",
+              "np.cosh"}
+
+
+def _is_even_wrap(parent, child):
+    if isinstance(parent, ast.Call) and dotted(parent.func) in EVEN_FUNCS \
+            and parent.args and parent.args[0] is child:
+        return True
+    if isinstance(parent, ast.BinOp) and isinstance(parent.op, ast.Pow) \
+            and parent.left is child and const_value(parent.right) in (2, 4):
+        return True
+    return False
+
+
+def rule_h2(ctx):
+    """Point.distance: the cross-object Minkowski product enters through an
+    even function."""
+    r = ctx.r
+    r.rule("H2", "in Point.distance the Minkowski product of the two "
+                 "objects' representatives (sign = product of the two "
+                 "arbitrary signs) is only used through an even function "
+                 "(np.abs, **2): the distance must not depend on the sheet "
+                 "of the hyperboloid a representative lies on")
+    f = ctx.p.get_function(HYP, "Point.distance")
+    r.analysed(f)
+    defs = single_defs(f.node)
+    parents = f.module.parents
+    cross = []
+    for n in ast.walk(f.node):
+        if isinstance(n, ast.Call) and dotted(n.func).endswith(
+                "apply_bilinear") and len(n.args) >= 2:
+            a = _rep_info(n.args[0], defs)
+            b = _rep_info(n.args[1], defs)
+            if a and b and a[0] != b[0]:
+                cross.append(n)
+    if not cross:
+        r.ok("H2", "Point.distance", loc(f, f.node), "",
+             "no cross-object bilinear product (H1 covers differences)")
+        return
+    for c in cross:
+        par = parents[c]
+        uses = []
+        if isinstance(par, ast.Assign) and len(par.targets) == 1 \
+                and isinstance(par.targets[0], ast.Name):
+            nm = par.targets[0].id
+            for n in ast.walk(f.node):
+                if isinstance(n, ast.Name) and n.id == nm \
+                        and isinstance(n.ctx, ast.Load):
+                    uses.append(n)
+        else:
+            uses = [c]
+        bad = [u for u in uses if not _is_even_wrap(parents[u], u)]
+        inst = "Point.distance:cross-product"
+        if uses and not bad:
+            r.ok("H2", inst, loc(f, c), dotted(c)[:100],
+                 f"{len(uses)} use(s), all through an even function")
+        else:
+            u = bad[0] if bad else c
+            st = u
+            while not isinstance(st, ast.stmt):
+                st = parents[st]
+            r.violation(
+                "H2", f"{f.fq}|{norm_stmt(st)}", loc(f, u),
+                norm_stmt(st)[:160],
+                "the product <x, y> of the two points' representatives is "
+                "used with its sign here; representatives are only defined "
+                "up to a non-zero scalar, so for two points stored on "
+                "opposite sheets (a negative rescaling, an eigenvector "
+                "routine's output) the reported distance is wrong (0 for "
+                "distinct points)", instance=inst)
+
+
+def rule_g2(ctx):
+    r = ctx.r
+    r.rule("G2", "the argument of np.arccos in TangentVector.angle does not "
+                 "pass through an even function (np.abs, **2): the sign of "
+                 "the product distinguishes acute from obtuse angles; "
+                 "clamping must be two-sided (np.clip(x, -1, 1))")
+    f = ctx.p.get_function(HYP, "TangentVector.angle")
+    r.analysed(f)
+    defs = single_defs(f.node)
+    sites = [n for n in ast.walk(f.node) if isinstance(n, ast.Call)
+             and dotted(n.func) == "np.arccos"]
+    if not sites:
+        r.ok("G2", "TangentVector.angle", loc(f, f.node), "",
+             "no np.arccos call (nothing to check)")
+        return
+    for c in sites:
+        bad = None
+
+        def scan(e, depth=0):
+            nonlocal bad
+            for n in ast.walk(e):
+                if isinstance(n, ast.Call) and dotted(n.func) in EVEN_FUNCS:
+                    bad = bad or n
+                if isinstance(n, ast.BinOp) and isinstance(n.op, ast.Pow) \
+                        and const_value(n.right) in (2, 4):
+                    bad = bad or n
+                if isinstance(n, ast.Name) and n.id in defs and depth < 4:
+                    d = defs[n.id]
+                    # stop at the bilinear product itself
+                    if isinstance(d, ast.Call) and dotted(d.func).endswith(
+                            "apply_bilinear"):
+                        continue
+                    scan(d, depth + 1)
+        scan(c.args[0])
+        inst = "TangentVector.angle:arccos"
+        if bad is None:
+            r.ok("G2", inst, loc(f, c), dotted(c)[:100],
+                 "argument keeps the sign of the product")
+        else:
+            r.violation(
+                "G2", f"{f.fq}|arccos", loc(f, c), dotted(c)[:160],
+                f"`{dotted(bad)[:60]}` discards the sign of the product "
+                "before np.arccos: every obtuse angle theta is reported as "
+                "pi - theta (the hyperbolic law of cosines fails at obtuse "
+                "vertices)", instance=inst)
+
+
+def rule_odd1(ctx):
+    r = ctx.r
+    r.rule("ODD1", "hyp_to_affine_dist (signed distance -> Klein radius, "
+                   "tanh) stays an odd function of its argument: an even "
+                   "function applied to the parameter must be compensated "
+                   "by np.sign / np.copysign of the parameter")
+    f = ctx.p.get_function(HYP, "hyp_to_affine_dist")
+    r.analysed(f)
+    p = f.params[0]
+    even = [n for n in ast.walk(f.node) if isinstance(n, ast.Call)
+            and dotted(n.func) in EVEN_FUNCS and n.args
+            and any(isinstance(x, ast.Name) and x.id == p
+                    for x in ast.walk(n.args[0]))]
+    sign = [n for n in ast.walk(f.node) if isinstance(n, ast.Call)
+            and dotted(n.func) in ("np.sign", "np.copysign", "np.tanh",
+                                   "np.sinh", "np.expm1")]
+    if not even:
+        r.ok("ODD1", "hyp_to_affine_dist", loc(f, f.node), "",
+             "no even function of the parameter")
+    elif sign:
+        r.ok("ODD1", "hyp_to_affine_dist", loc(f, even[0]),
+             dotted(even[0]), "even part compensated by a sign factor")
+    else:
+        r.violation(
+            "ODD1", f"{f.fq}|even", loc(f, even[0]), dotted(even[0])[:120],
+            f"`{dotted(even[0])}` makes the Klein radius an even function "
+            "of the signed distance and nothing restores the sign: "
+            "point_along(-t) lands on the same side as point_along(t)",
+            instance="hyp_to_affine_dist")
+    # point_along passes the signed distance on unchanged
+    g = ctx.p.get_function(HYP, "TangentVector.point_along")
+    r.analysed(g)
+    calls = [n for n in ast.walk(g.node) if isinstance(n, ast.Call)
+             and dotted(n.func) == "hyp_to_affine_dist"]
+    if calls and calls[0].args and dotted(calls[0].args[0]) == g.params[1]:
+        r.ok("ODD1", "point_along:signed", loc(g, calls[0]),
+             dotted(calls[0]), "the signed distance is passed unchanged")
+    elif calls:
+        r.violation("ODD1", f"{g.fq}|arg", loc(g, calls[0]),
+                    dotted(calls[0])[:120],
+                    "point_along does not pass its signed distance "
+                    "parameter unchanged to hyp_to_affine_dist",
+                    instance="point_along:signed")
